@@ -100,6 +100,7 @@ namespace bxdecay0 {
 
   void event::shift_particles_time(double delta_time_, const int from_)
   {
+    BXDECAY0_VERIF_SCOPE("shift", delta_time_, from_);
     int count = 0;
     for (auto & p : _particles_) {
       if (count >= from_) {
